@@ -39,19 +39,34 @@ THEOREMS_FOR = {
                              "gen_loops_safe_partial"]),
 }
 # ---- schema 1.x: lean/EngineModel/Gen/ImplV1Gen.lean (tools/tr_blobs_v1.py), design/codegen_v1.md
-V1_MODULES = ["Proofs.ImplV1Gen", "Proofs.ImplV1GenTransfer"]
+V1_MODULES = ["Proofs.ImplV1Gen", "Proofs.ImplV1GenTransfer",
+              # work-package codegenv1b (design/codegen_v1.md, "codegenv1b"): the 1.x encoders and the beat codec
+              "Proofs.ImplV1GenEnc", "Proofs.ImplV1GenBeat", "Proofs.ImplV1GenLists", "Proofs.ImplV1GenEncTransfer",
+              "Proofs.ImplV1GenBeatDec", "Proofs.ImplV1GenBeatTransfer"]
 _Q1 = lambda names: ["EngineModel.Gen.ImplV1." + t for t in names]
 # regenerated 1.x decoder = hand model Impl.V1.* (`_partial`: payload below 2^62 / 2^63 / 2^60 / 2^61 bytes)
 THEOREMS_V1_EQ = _Q1(["decodeTrack_eq", "decodeOvw_eq_partial", "decodeHires_eq_partial", "decodeCues_eq_partial",
-                      "decodeLoops_eq_partial"])
-THEOREMS_V1_ENC = _Q1(["encodeTrack_eq"])
+                      "decodeLoops_eq_partial", "decodeGrid_eq", "decodeBeat_eq"])
+# regenerated 1.x encoder = hand model (`_partial`: payload below 2^63 bytes = vector<byte>::max_size());
+# `validateGrid_eq` / `encodeGrid_writes_partial`: the two helpers of beat_data::encode
+THEOREMS_V1_ENC = _Q1(["encodeTrack_eq", "encodeOvw_eq_partial", "encodeHires_eq_partial", "validateGrid_eq",
+                       "encodeGrid_writes_partial", "encodeBeat_eq", "encodeCues_eq_partial", "encodeLoops_eq_partial"])
 THEOREMS_V1_FOR = {
     "C02": THEOREMS_V1_EQ + THEOREMS_V1_ENC +
            _Q1(["gen_v1_track_spec", "gen_v1_ovw_spec_partial", "gen_v1_hires_spec_partial",
-                "gen_v1_cues_spec_partial", "gen_v1_loops_spec_partial"]),
-    "C03": THEOREMS_V1_ENC + _Q1(["gen_v1_track_readback", "gen_v1_track_total"]),
+                "gen_v1_cues_spec_partial", "gen_v1_loops_spec_partial",
+                "gen_v1_ovw_encode_spec_partial", "gen_v1_hires_encode_spec_partial", "gen_v1_cues_encode_spec_partial",
+                "gen_v1_loops_encode_spec_partial", "gen_v1_beat_encode_spec",
+                "gen_v1_beat_of_spec", "gen_v1_beat_spec_partial", "gen_v1_beat_lenient"]),
+    "C03": THEOREMS_V1_ENC + _Q1(["gen_v1_track_readback", "gen_v1_track_total",
+                                  "gen_v1_ovw_readback_partial", "gen_v1_hires_roundtrip_partial", "gen_v1_cues_readback",
+                                  "gen_v1_cues_reject_partial", "gen_v1_loops_readback_partial", "gen_v1_loops_reject_partial",
+                                  "gen_v1_beat_encode_reject", "gen_v1_beat_readback", "decodeBeat_eq", "decodeGrid_eq"]),
     "C05": THEOREMS_V1_EQ + _Q1(["gen_v1_track_safe", "gen_v1_ovw_safe_partial", "gen_v1_hires_safe_partial",
-                                 "gen_v1_cues_safe_partial", "gen_v1_loops_safe_partial"]),
+                                 "gen_v1_cues_safe_partial", "gen_v1_loops_safe_partial",
+                                 "gen_v1_beat_safe", "encodeBeat_eq", "gen_v1_beat_encode_safe", "gen_v1_ovw_encode_safe_partial",
+                                 "gen_v1_hires_encode_safe_partial", "gen_v1_cues_encode_safe_partial",
+                                 "gen_v1_loops_encode_safe_partial"]),
 }
 THEOREMS_V1 = sorted(set(sum(THEOREMS_V1_FOR.values(), [])))
 for _k, _v in THEOREMS_V1_FOR.items():
@@ -70,8 +85,8 @@ ASSUMPTIONS = [
     "regenerated model: the Lean definitions of lean/EngineModel/Gen/ImplV2Gen.lean are produced from clang's typed AST "
     "of the working tree on every run; each is proved equal to the hand model Impl.V2.* (Proofs/ImplV2Gen.lean) "
     "(1.x: lean/EngineModel/Gen/ImplV1Gen.lean from v1/performance_data_format.cpp, equalities in Proofs/ImplV1Gen.lean for "
-    "the decoders of track / overview / high-res waveform / quick cues / loops data and the track encoder; the 1.x beat codec "
-    "and the other 1.x encoders are regenerated and executed against the library but not proved equal). A "
+    "all fifteen functions: the six decoders incl. decode_beatgrid, the six encoders, validate_beatgrid, encode_beatgrid — "
+    "Proofs/ImplV1Gen.lean, ImplV1GenEnc.lean, ImplV1GenBeat.lean, ImplV1GenLists.lean, ImplV1GenBeatDec.lean). A "
     "function outside the translator's fragment keeps its last translation (status `unsupported-node: <kind> at "
     "<file:line>` under coverage.translators) and is then tied by the differential run only",
 ]
